@@ -35,6 +35,7 @@ type gSim struct {
 	nodes []*gNode
 	ops   []string
 	term  uint64
+	nDel  int
 }
 
 func newSim(r *rand.Rand, k int) *gSim {
@@ -354,7 +355,13 @@ func (s *gSim) tamperOp(ni int, m gMut) {
 }
 
 func (s *gSim) deleteOp(ni int, mn, mx uint64) {
-	s.emit("d %x %x %x", ni, mn, mx)
+	s.nDel++
+	if s.nDel%5 == 0 {
+		// the middleware's LastIndex read of the underlying store fails for this call
+		s.emit("l %x %x %x", ni, mn, mx)
+	} else {
+		s.emit("d %x %x %x", ni, mn, mx)
+	}
 	s.simDelete(ni, mn, mx)
 }
 
